@@ -205,18 +205,77 @@ Section ReadBack.
       cbn [app]. now destruct (parse hm (body_mode f) rest).
   Qed.
 
+  (** header lines of any kind: the field section is consumed, whatever it makes of te / cl *)
+  Definition flushable (P : option bytes) : Prop :=
+    forall te cl, exists te' cl', flush hm P te cl = Some (te', cl').
+
+  Lemma flushable_none : flushable None.
+  Proof. intros te cl. exists te, cl. reflexivity. Qed.
+
+  Lemma flushable_line : forall h, is_token (lower (fst h)) = true -> flushable (Some (fst h ++ 58 :: snd h)).
+  Proof.
+    intros [n v] Ht te cl. cbn [fst snd] in *. rewrite flush_line by assumption.
+    destruct (eqb_bytes (lower n) H_TE); [eauto|]. destruct (eqb_bytes (lower n) H_CL && negb hm); eauto.
+  Qed.
+
+  Lemma parse_header_any : forall c P te cl te' cl' h rest,
+    line_ok h -> flush hm P te cl = Some (te', cl') ->
+    parse hm (MHeaders c P te cl) (header_line h ++ rest)
+    = parse hm (MHeaders c (Some (fst h ++ 58 :: snd h)) te' cl') rest.
+  Proof.
+    intros c P te cl te' cl' [n v] rest [Ht Hv] HP. cbn [fst snd] in *.
+    assert (E : header_line (n, v) ++ rest = ((n ++ 58 :: v) ++ [13]) ++ 10 :: rest).
+    { unfold header_line. cbn [fst snd]. repeat (rewrite <- app_assoc; cbn [app]). reflexivity. }
+    rewrite E. erewrite parse_emit.
+    2:{ cbn [pstep]. rewrite split_at_app.
+        - rewrite strip_cr_snoc.
+          pose proof (token_lower_nonempty n Ht) as Hne.
+          destruct n as [|a n']; [contradiction|].
+          assert (Ha : is_lws ((a :: n') ++ 58 :: v) = false).
+          { cbn [app is_lws].
+            assert (a <> 32) by (intro; subst; eapply (token_lower_excludes (32 :: n') 32); eauto; now left).
+            assert (a <> 9) by (intro; subst; eapply (token_lower_excludes (9 :: n') 9); eauto; now left).
+            apply N.eqb_neq in H, H0. now rewrite H, H0. }
+          rewrite Ha, HP. reflexivity.
+        - apply not_In_app; [|cbn; intuition discriminate].
+          apply not_In_app; [eapply token_lower_excludes; eauto|].
+          intros [H | H]; [discriminate | contradiction]. }
+    cbn [app]. now destruct (parse hm _ rest).
+  Qed.
+
+  Lemma parse_headers_any : forall hs c P te cl rest,
+    Forall (fun h => is_token (lower (fst h)) = true /\ ~ In 10 (snd h)) hs -> flushable P ->
+    exists P' te' cl', flushable P' /\
+      parse hm (MHeaders c P te cl) (concat (map header_line hs) ++ rest)
+      = parse hm (MHeaders c P' te' cl') rest.
+  Proof.
+    induction hs as [|h hs IH]; intros c P te cl rest Hall HP.
+    - exists P, te, cl. split; [assumption | reflexivity].
+    - inversion Hall as [|? ? (H1 & H2) Hall']; subst.
+      destruct (HP te cl) as (te1 & cl1 & Hf).
+      cbn [map concat]. rewrite <- app_assoc.
+      rewrite (parse_header_any c P te cl te1 cl1 h) by (assumption || (split; assumption)).
+      apply IH; [assumption|]. now apply flushable_line.
+  Qed.
+
+  (** interim responses - with whatever header lines - leave no trace *)
   Lemma parse_interim : forall cs rest,
-    Forall (fun c => 100 <= c < 200) cs ->
+    Forall (fun i => 100 <= fst i < 200
+                     /\ Forall (fun h => is_token (lower (fst h)) = true /\ ~ In 10 (snd h)) (snd i)) cs ->
     parse hm MStatus (concat (map interim_bytes cs) ++ rest) = parse hm MStatus rest.
   Proof.
-    induction cs as [|c cs IH]; intros rest H; [reflexivity|].
-    inversion H as [|? ? Hc H']; subst. cbn [map concat]. rewrite <- app_assoc.
-    unfold interim_bytes at 1. rewrite <- app_assoc.
+    induction cs as [|[c hs] cs IH]; intros rest H; [reflexivity|].
+    inversion H as [|? ? [Hc Hhs] H']; subst. cbn [fst snd] in *.
+    cbn [map concat]. rewrite <- app_assoc.
+    unfold interim_bytes at 1. cbn [fst snd]. rewrite <- !app_assoc.
     rewrite parse_status by (intros []).
-    cbn [app]. rewrite (parse_blank c None [] [] [] []) by reflexivity.
-    assert (E : (100 <=? c) && (c <? 200) = true).
+    destruct (parse_headers_any hs c None [] [] ([13; 10] ++ concat (map interim_bytes cs) ++ rest) Hhs flushable_none)
+      as (P & te & cl & HP & E).
+    rewrite E. destruct (HP te cl) as (te' & cl' & Hf).
+    cbn [app]. rewrite (parse_blank c P te cl te' cl' _ Hf).
+    assert (E1 : (100 <=? c) && (c <? 200) = true).
     { apply andb_true_iff. split; [apply N.leb_le | apply N.ltb_lt]; lia. }
-    rewrite E. now apply IH.
+    rewrite E1. now apply IH.
   Qed.
 
   (** ** bodies *)
@@ -427,9 +486,11 @@ Section ReadBack.
   Qed.
 End ReadBack.
 
-(** the hypotheses are inhabited: an interim 100, a folded-free header, a chunked body *)
+(** the hypotheses are inhabited: an interim 100 carrying `Content-Length: 9` (discarded), a header, a
+    chunked body *)
 Example wf_example :
-  let r := mkResp [100] 200 [79; 75] [([88; 45; 65], [32; 49])] (BChunked [[97; 98]; [99]]) in
+  let r := mkResp [(100, [([67; 111; 110; 116; 101; 110; 116; 45; 76; 101; 110; 103; 116; 104], [32; 57])])]
+                  200 [79; 75] [([88; 45; 65], [32; 49])] (BChunked [[97; 98]; [99]]) in
   wf_response false r
   /\ whole_events false (serialize r ++ [72]) = expected_reading r [72]
   /\ expected_reading r [72] = [PHead 200 FChunked; PData [97]; PData [98]; PData [99]; PFinish].
